@@ -8,3 +8,8 @@ chk('C13',
     'Trusted: ref/sqwdec.py; float32 rounding = numpy astype of the scipp-converted float64; (1,)-shaped efix/en whose shape the format cannot represent are not judged.',
     'explicit enumeration of configuration grids on the real writer and reader; independent decoder as reference model',
     'DESIGN.md section 6 C13')
+chk('C02',
+    'Exhaustive enumeration of all 2^11 subsets of the geometry/energy coordinates x 4 origins x all targets x scatter (thorough: x container, extra hkl/time targets, origin-absent bit; 651k configurations): outcome class (value vs RuntimeError) and value along the documented precedence must equal an independent least-fixpoint derivability model with fingerprint coordinate values; the reported graph must have the documented structure and reproduce convert() bitwise.',
+    'Trusted: rule table transcribed from the docs in ref/derive.py; numpy formulas at 1e-9; reading: scatter=False always uses the tof kinematic graph.',
+    'explicit enumeration of all coordinate subsets on the real convert(); independent derivability/formula model; differential against transform_coords with the reported graph',
+    'DESIGN.md section 6 C02')
